@@ -112,6 +112,11 @@ var c10Subst = []byte{0, 1, 2, 3, 4, 7, 8, 0x7F, 0x80, 0xFE, 0xFF, 0xD8, 0xDC}
 // c10HeaderFloods: headers of length 0..7 followed by 66000 / 132000 bytes
 const c10HeaderFloods = 16
 
+// c10ChannelFloods: header-only and small packets for channels that do not exist, many more than the connection's
+// error queue holds, while the consumer has stopped taking errors: the reader may wait, it may not leave anything
+// behind per packet (goroutines, memory).
+var c10ChannelFloods = []int{30, 200, 2000}
+
 // c10SubstN is the number of substitutions tried per byte: the absolute values above and the original value
 // plus and minus 1..4 (lengths and counts that are slightly off).
 const c10SubstN = 13 + 8
@@ -195,7 +200,7 @@ func c10LenTypes() []peer.Entry {
 var c10CrossSeqs = [][]byte{{0xD1, 0xD1}, {0xD1, 0xD7}, {0xD7, 0xD1}, {0xD7, 0xD7}, {0xD7, 0xD7, 0xD1}, {0xD1, 0xD1, 0xD7}}
 
 func (c10) NRuns(tier string) int {
-	n := c10BuildEnum(tier).total + len(c10LenTypes())*256 + 10*2*24 + c10HeaderFloods + len(fmtNames)*len(c10CrossSeqs) + c10PackPasses*len(c10PackSizes) + len(c10Dribbles)
+	n := c10BuildEnum(tier).total + len(c10LenTypes())*256 + 10*2*24 + c10HeaderFloods + len(c10ChannelFloods) + len(fmtNames)*len(c10CrossSeqs) + c10PackPasses*len(c10PackSizes) + len(c10Dribbles)
 	if tier == "thorough" {
 		return n + 3000000
 	}
@@ -321,6 +326,21 @@ func c10Gen(r *Rand, idx int, tier string) *c10Plan {
 		return p
 	}
 	i -= c10HeaderFloods
+	if i < len(c10ChannelFloods) {
+		var w []byte
+		for k := 0; k < c10ChannelFloods[i]; k++ {
+			var body []byte
+			if k%2 == 1 {
+				body = peer.Done(0, 0, 0)
+			}
+			w = append(w, peer.MakePacket(peer.BufResponse, peer.BufstatEOM, uint16(7+k%3), uint8(k), body)...)
+		}
+		p.Kind, p.Subject = "channel-flood", fmt.Sprintf("packets=%d", c10ChannelFloods[i])
+		p.Desc = fmt.Sprintf("%d packets (header-only and with a DONE) for channels that do not exist", c10ChannelFloods[i])
+		p.Wire = hex.EncodeToString(w)
+		return p
+	}
+	i -= len(c10ChannelFloods)
 	if i < len(fmtNames)*len(c10CrossSeqs) {
 		// every format followed by data tokens of its own and of the other family, each with the bytes of a
 		// valid data package of that format (without its token)
@@ -540,6 +560,17 @@ func (c10) Run(plan interface{}, schedSeed uint64, replay []simrt.Choice, lenien
 		v.Violate("livelock", "livelock: step budget exhausted ("+p.Kind+")", "%s (%s): the client was still busy after %d steps on %d input bytes", p.Kind, p.Desc, out.Steps, len(wire))
 		v.Budget = false
 	}
+	// goroutines of the library still waiting at the end: the reader, and whatever it started. Their number may not
+	// depend on how much the server sent.
+	left := 0
+	for _, pk := range out.Parked {
+		if strings.HasPrefix(pk.Task, "go@") {
+			left++
+		}
+	}
+	if left > 6 {
+		v.Violate("goroutines", "goroutines left behind in proportion to the input ("+p.Kind+")", "%s (%s): %d goroutines of the library are still waiting at the end of the run, after %d input bytes", p.Kind, p.Desc, left, len(wire))
+	}
 	growth := int64(ms1.TotalAlloc - ms0.TotalAlloc)
 	if growth > 64<<20 {
 		// give huge (mostly untouched) blocks back before the next run, or the address-space limit kills the worker
@@ -597,5 +628,5 @@ func hashString(s string) uint64 {
 
 // RequiredProbes: a batch in which one of these never fired explored nothing of that kind (exit 2, not a pass).
 func (c10) RequiredProbes() []string {
-	return []string{"kind:subst", "kind:datalen", "kind:header", "kind:fmt-cross", "kind:packsize", "kind:count-dribble", "re-cut-into-small-packets", "kind:window", "kind:random-stream"}
+	return []string{"kind:subst", "kind:datalen", "kind:header", "kind:fmt-cross", "kind:packsize", "kind:count-dribble", "re-cut-into-small-packets", "kind:window", "kind:random-stream", "kind:channel-flood"}
 }
